@@ -77,11 +77,18 @@ const MAX_IN_BLOCK_DISTACE: usize = 1 << 16;
 /// extra data structures to support fast `select0` queries,
 /// which otherwise are not supported.
 
-#[derive(Default, Debug, Clone, Serialize, Deserialize, PartialEq)]
+#[derive(Debug, Clone, Serialize, Deserialize, PartialEq)]
 pub struct DArray<const SELECT0_SUPPORT: bool = false> {
     bv: BitVector,
     ones_inventories: Inventories<true>,
     zeroes_inventories: Option<Inventories<false>>,
+}
+
+impl<const SELECT0_SUPPORT: bool> Default for DArray<SELECT0_SUPPORT> {
+    /// The DArray of the empty bit vector (with the zeros inventory if `SELECT0_SUPPORT`).
+    fn default() -> Self {
+        Self::new(BitVector::default())
+    }
 }
 
 // Helper struct for DArray that stores
